@@ -3,6 +3,7 @@ package galaxysim
 import (
 	"encoding/json"
 	"fmt"
+	k8sfake "k8s.io/client-go/kubernetes/fake"
 	"net"
 	"strings"
 	"testing"
@@ -238,7 +239,12 @@ func checkC13(c c13Case, r *vcore.Rec) *vcore.Failure {
 	gpod := Pod(ipamsim.NS, pod.Name, map[string]string{constant.ExtendedCNIArgsAnnotation: ann}, true)
 	// a second pod on the node never asked galaxy-ipam for anything: no IP may reach its plugin
 	plain := Pod(ipamsim.NS, "plain-0", nil, false)
-	d, err := NewDaemon(env, conf, "", []*corev1.Pod{gpod, plain})
+	// the API server the daemon talks to: the truth, plus a watch cache that still holds the pod as it was before galaxy-ipam's
+	// binding (a read that asks for "any version" may be served from it; a consistent read never is)
+	truthKube := k8sfake.NewSimpleClientset(gpod, plain)
+	sk := NewStaleKube(truthKube)
+	sk.SetStale(Pod(ipamsim.NS, pod.Name, nil, true))
+	d, err := NewDaemonClient(env, conf, "", sk)
 	if err != nil {
 		return vcore.Failf("harness:init", "daemon construction failed: %v", err)
 	}
